@@ -58,9 +58,20 @@ def _run_scenario(idx: int) -> Tuple[int, List[Dict[str, Any]], Optional[str], f
         info = {"rewrites": {k: v for k, v in instrument.REWRITES.items() if any(v.values())}, "rt": dict(rt.COUNTS)}
         return idx, [o.to_json() for o in obs], None, time.time() - t, info
     except core.CheckerError as e:
+        if "payload variants diverge" in str(e):
+            # two executions of the same scenario differ: either a proxy payload leaked (engine) or the code under
+            # contract keeps state between calls; neither lets the obligations be discharged
+            ob = Ob(f"{sc.ident}:RUN", sc.func, "RUN", "two executions of the scenario on the same inputs agree", UNDECIDED, list(sc.props),
+                    "pyvc", time.time() - t, "", "executions diverge (hidden state in the code under contract, or a leaked proxy payload): " + str(e)[:600])
+            return idx, [ob.to_json()], None, time.time() - t, {}
         return idx, [], "CheckerError: " + str(e), time.time() - t, {}
-    except Exception:
-        return idx, [], traceback.format_exc(limit=8), time.time() - t, {}
+    except Exception as e:
+        # the code under contract no longer fits the scenario (changed signature, unsupported construct, ...):
+        # the scenario's obligations are UNDECIDED, never silently passed and never a violation by themselves
+        tb = traceback.format_exc(limit=6)
+        ob = Ob(f"{sc.ident}:RUN", sc.func, "RUN", "the contract scenario runs to completion on this tree", UNDECIDED, list(sc.props),
+                "pyvc", time.time() - t, "", f"scenario aborted: {type(e).__name__}: {e}\n{tb[-600:]}")
+        return idx, [ob.to_json()], None, time.time() - t, {}
 
 
 def load_findings() -> Dict[str, Any]:
@@ -155,14 +166,11 @@ def main(argv=None) -> int:
     # ---- thorough tier: bounded sweeps / conformance runs registered by the contract files
     extra: Dict[str, Any] = {}
     sweep_viol: List[Dict[str, Any]] = []
-    if args.tier == "thorough" or (undecided and not new):
-        try:
-            from vf import sweeps
-            extra, sweep_viol = sweeps.run(prop, args.tier, seed)
-        except ModuleNotFoundError:
-            pass
-        except Exception:
-            errors.append(("sweeps", traceback.format_exc(limit=6)))
+    try:
+        from vf import sweeps
+        extra, sweep_viol = sweeps.run(prop, args.tier, seed, force=bool(undecided or new))
+    except Exception:
+        errors.append(("sweeps", traceback.format_exc(limit=6)))
 
     # ---- replay every new refutation on the real code
     lines: List[str] = []
